@@ -157,14 +157,10 @@ func (server *Server) Stop() error {
 	server.stopping = true
 	server.lifecycleMutex.Unlock()
 
-	if err := server.close(); err != nil {
-		return err
-	}
+	closeErr := server.close()
 	server.acceptGroup.Wait()
 
-	if err := server.ConnManager.Stop(); err != nil {
-		return err
-	}
+	connErr := server.ConnManager.Stop()
 
 	// Closes the accepted sockets which are not registered yet too.
 	server.lifecycleMutex.Lock()
@@ -177,6 +173,10 @@ func (server *Server) Stop() error {
 		conn.Close()
 	}
 	server.connGroup.Wait()
+
+	if err := errors.Join(closeErr, connErr); err != nil {
+		return err
+	}
 
 	if server.IsPortEnabled() {
 		addr := net.JoinHostPort(server.Addr, strconv.Itoa(server.ConfigPort()))
@@ -242,23 +242,19 @@ func (server *Server) close() error {
 	server.lifecycleMutex.Lock()
 	defer server.lifecycleMutex.Unlock()
 
+	var errs error
+
 	if server.portListener != nil {
-		err := server.portListener.Close()
-		if err != nil {
-			return err
-		}
+		errs = errors.Join(errs, server.portListener.Close())
 		server.portListener = nil
 	}
 
 	if server.tlsPortListener != nil {
-		err := server.tlsPortListener.Close()
-		if err != nil {
-			return err
-		}
+		errs = errors.Join(errs, server.tlsPortListener.Close())
 		server.tlsPortListener = nil
 	}
 
-	return nil
+	return errs
 }
 
 // trackConn adds the accepted connection to the live connections unless the server is stopping.
